@@ -295,6 +295,55 @@ def onWrite (s : St) (sn : Snap) : IO St := do
     | none =>
       mismatch s s!"write not explained by the model: impl log st={sn.st} res={sn.res} cs={sn.cs} C={sn.contracts.map (·.1)}; model pc={repr s.sys.pc} mem={repr s.sys.mem} trig={repr s.sys.trig} log={repr s.sys.log} active={repr s.sys.active}"
 
+/-- `N=[h15/2:pscl,h16/2:kndr@106]` → nursery entries. -/
+def parseNursery (ws : List String) : Option (List (Nat × NStage)) :=
+  match findPrefixed ws "N=[" with
+  | none => none
+  | some w =>
+    let inner := dropEndN (dropN w 3) 1
+    if inner.isEmpty then some [] else
+    (inner.splitOn ",").mapM fun it =>
+      match it.splitOn ":" with
+      | [l, st] =>
+        let base := if l.endsWith "/2" then dropEndN l 2 else l
+        match labelKey base with
+        | none => none
+        | some k =>
+          if st == "pscl" then some (k, NStage.preschool)
+          else if st == "grad" then some (k, NStage.graduated)
+          else if st.startsWith "kndr@" then (dropN st 5).toNat?.map fun c => (k, NStage.kinder c)
+          else none
+      | _ => none
+
+def nurseryEq (a b : List (Nat × NStage)) : Bool :=
+  a.length == b.length && a.all (b.contains ·) && b.all (a.contains ·)
+
+/-- `U n ep=.. N=[..]`: a write of the utxo nursery store: either a resolver's `IncubateOutputs`
+    or a step of the nursery itself. -/
+def onNurseryWrite (s : St) (ws : List String) : IO St := do
+  if !s.modelOk then return s
+  let some want := parseNursery ws | mismatch s "unparsable nursery snapshot"
+  let s := norm s
+  let viaRes := s.sys.active.findSome? fun (r : RunRes) =>
+    match resRes s.spec s.sys.facts r with
+    | .incubate =>
+      match resStep s.spec s.sys r.key with
+      | some s' => if nurseryEq s'.nursery want then some (s', s!"resolver {r.key} IncubateOutputs") else none
+      | none => none
+    | _ => none
+  let keys := (s.sys.nursery.map (·.1)).eraseDups
+  let viaNur := (keys ++ [0]).findSome? fun k =>
+    match nurseryStep s.spec s.sys k with
+    | some s' => if nurseryEq s'.nursery want then some (s', s!"nursery step {k}") else none
+    | none => none
+  match viaRes <|> viaNur with
+  | some (s', what) => applyStep s s' what
+  | none =>
+    -- a committed nursery-store transaction that changes nothing (duplicate confirmation
+    -- registration, `RemoveChannel` / `closeAndRemoveIfMature` repeated at start)
+    if nurseryEq s.sys.nursery want then return bump s "nursery_noop_writes" else
+    mismatch s s!"nursery store write not explained by the model: impl {repr want}; model nursery={repr s.sys.nursery} height={s.sys.facts.height} confs={repr s.sys.facts.confs}"
+
 /-- `E n ep=.. incubate <label>`: a resolver hands its output to the utxo nursery. -/
 def onIncubate (s : St) (label : String) : IO St := do
   if !s.modelOk then return s
@@ -630,6 +679,14 @@ def step (s : St) (line : String) : IO St := do
     | some k => return norm { s with sys := { s.sys with facts := s.sys.facts.add (.preimage k) } }
     | none => mismatch s s!"unknown label {l}"
   | "K" :: _ => return bump s "effect_stop_points"
+  | "U" :: rest =>
+    let s := bump { s with evaluations := s.evaluations + 1 } "nursery_store_writes"
+    onNurseryWrite s rest
+  | "X" :: "conf" :: l :: rest =>
+    match labelKey l with
+    | some k => return norm { s with sys := { s.sys with facts := s.sys.facts.add (.conf k ((kvNat? rest "height").getD 0)) } }
+    | none => mismatch s s!"unknown label {l}"
+  | "DOWN" :: _ => return bump s "downtimes"
   | "M" :: rest =>
     let idx := (kvNat? rest "idx").getD 0
     let settle := rest.contains "settle"
